@@ -193,13 +193,16 @@ def run_case(case) -> Result:
             if a != b:
                 res.violate("final:summary", subject=a[-300:], shadow=b[-300:])
             tgt = net.sp2d(tuple(case["control_sp"]))
-            try:
-                ca = [repr(x) for x in call(succession_control, subj.sd, tgt)]
-                cb = [repr(x) for x in call(succession_control, shad.sd, tgt)]
-                if ca != cb:
-                    res.violate("final:control", subject=str(ca)[:300], shadow=str(cb)[:300])
-            except BBError as e:
-                res.count("control_error_" + e.kind)
+            outs = []
+            for h_ in (subj, shad):  # both diagrams get the call, whatever it does on the other one
+                try:
+                    outs.append(("ok", [repr(x) for x in call(succession_control, h_.sd, tgt)]))
+                except BBError as e:
+                    outs.append(("error", e.kind))
+            if outs[0] != outs[1]:
+                res.violate("final:control", subject=str(outs[0])[:300], shadow=str(outs[1])[:300])
+            elif outs[0][0] == "error":
+                res.count("control_error_" + outs[0][1])
             fa = subj.apply({"op": "build"})
             fb = shad.apply({"op": "build"})
             if fa.kind != fb.kind:
